@@ -28,6 +28,6 @@ if [ "$ID" = C19 ]; then
   (cd $M-wt && CARGO_TARGET_DIR=$M-target-repo-oc RUSTFLAGS="-C overflow-checks=on -C debug-assertions=on" cargo build --release --offline -p fontc 2>&1 | tail -1) || exit 2
   export VERIF_FONTC_BIN_OC=$M-target-repo-oc/release/fontc
 fi
-export VERIF_OUT=$M-out
+export VERIF_OUT=$M-out VERIF_BUDGET_SCALE=${VERIF_BUDGET_SCALE:-6}
 $M-target/release/$bin $TIER
 echo "exit status: $?"
